@@ -6,6 +6,13 @@ import GmqttVerif.Proofs.Session
 namespace GmqttVerif.Broker
 open GmqttVerif.Deliver
 
+/-- the lifetime (s) of a message whose publisher asked for `orig` seconds (0 = no expiry) on a broker whose
+    `maximum_message_expiry` is `cfgMax` seconds (0 = no limit): the smaller of the two when both are set, the one
+    that is set when only one is, unlimited (`none`) when neither is -/
+def lifetime (orig cfgMax : Nat) : Option Nat :=
+  if orig = 0 then (if cfgMax = 0 then none else some cfgMax)
+  else if cfgMax = 0 then some orig else some (min orig cfgMax)
+
 /-- the protocol version `enqueue` computes sizes for -/
 def B.enqV (b : B) (cid : String) (s : Sess) : Nat :=
   match b.cliOf? cid with | some c => c.v | none => s.queue.limit * 0 + 4
